@@ -52,12 +52,13 @@ type world struct {
 	node  *trafficx.Node
 	thr   *big.Int
 
-	mu       sync.Mutex
-	recs     []*opRec
-	recvNext []*big.Int          // next payout of the peer's cheque to us
-	sched    []string            // description of the forced schedule
-	setupW   int                 // number of store writes made by the setup
-	scratch  storage.StateStorer // store reused for every restart of this history
+	mu         sync.Mutex
+	recs       []*opRec
+	recvNext   []*big.Int          // next payout of the peer's cheque to us
+	sched      []string            // description of the forced schedule
+	setupW     int                 // number of store writes made by the setup
+	scratch    storage.StateStorer // store reused for every restart of this history
+	chequePeer int                 // >= 0: the post-restart cheque check is made for this peer at every restart point
 }
 
 func (w *world) close() {
@@ -70,7 +71,7 @@ func (w *world) close() {
 func bi(v int64) *big.Int { return big.NewInt(v) }
 
 func newWorld(t *testing.T, run *obs.Run, c *obs.Case, rng *rand.Rand, npeers int) *world {
-	w := &world{t: t, run: run, c: c, clock: &trafficx.Clock{}, chain: trafficx.NewChain(), thr: bi(1 + int64(rng.Intn(20)))}
+	w := &world{chequePeer: -1, t: t, run: run, c: c, clock: &trafficx.Clock{}, chain: trafficx.NewChain(), thr: bi(1 + int64(rng.Intn(20)))}
 	w.self = trafficx.NewParty("self", rng)
 	inner, err := trafficx.NewMemStore()
 	if err != nil {
@@ -333,10 +334,13 @@ func (w *world) restartAt(k int, rng *rand.Rand, mem *view) {
 	}
 	// no cheque for an amount already paid: the first cheque after the restart
 	// (at quiescence and at a third of the crash points)
-	if mem == nil && rng.Intn(3) != 0 {
+	if mem == nil && w.chequePeer < 0 && rng.Intn(3) != 0 {
 		return
 	}
 	i := rng.Intn(len(w.peers))
+	if w.chequePeer >= 0 {
+		i = w.chequePeer
+	}
 	p := w.peers[i]
 	extra := new(big.Int).Add(w.thr, bi(int64(rng.Intn(50))))
 	if err := n2.Svc.PutRetrieveTraffic(p.Overlay, extra); err != nil {
@@ -432,9 +436,21 @@ func forcedHistory(t *testing.T, run *obs.Run, c *obs.Case, i int) {
 	rng := c.Rand()
 	w := newWorld(t, run, c, rng, 2+rng.Intn(2))
 	defer w.close()
+	kind := kConsume
+	prefix := "retrieved_traffic_"
+	if rng.Intn(2) == 0 {
+		kind, prefix = kServe, "transferred_traffic_"
+	}
+	p := rng.Intn(len(w.peers))
+	// variant: the overtaking operation is a Pay, i.e. a cheque for traffic whose total is not stored yet
+	payOvertakes := kind == kConsume && rng.Intn(4) == 0
 	pre := rng.Intn(5)
 	for j := 0; j < pre; j++ {
-		w.randomSeqOp(rng, 0, "", -1)
+		if payOvertakes {
+			w.randomSeqOp(rng, 0, kConsume, p) // the held-back update is the first one of this total
+		} else {
+			w.randomSeqOp(rng, 0, "", -1)
+		}
 	}
 	if rng.Intn(3) == 0 {
 		if err := w.node.Svc.TrafficInit(); err != nil {
@@ -443,18 +459,20 @@ func forcedHistory(t *testing.T, run *obs.Run, c *obs.Case, i int) {
 		w.sched = append(w.sched, "24h refresh (TrafficInit) after the sequential prefix")
 	}
 	focus := len(w.ps.Writes()) // every write from here on is a restart point
-	kind := kConsume
-	prefix := "retrieved_traffic_"
-	if rng.Intn(2) == 0 {
-		kind, prefix = kServe, "transferred_traffic_"
-	}
-	p := rng.Intn(len(w.peers))
 	m := 1 + rng.Intn(3)
+	if payOvertakes {
+		m = 1
+		w.chequePeer = p
+	}
 	rule := trafficx.NewParkRule(func(key string, _ interface{}) bool {
 		return strings.HasPrefix(key, prefix) && strings.HasSuffix(key, fmt.Sprintf("%x", w.peers[p].Addr))
 	})
 	w.ps.Arm(rule)
 	do := func(g int, a *big.Int) {
+		if payOvertakes && g > 1 {
+			w.pay(g, p)
+			return
+		}
 		if kind == kConsume {
 			w.consume(g, p, a)
 		} else {
@@ -462,6 +480,9 @@ func forcedHistory(t *testing.T, run *obs.Run, c *obs.Case, i int) {
 		}
 	}
 	a := amount(rng)
+	if payOvertakes {
+		a.Add(a, w.thr)
+	}
 	w.sched = append(w.sched, fmt.Sprintf("G1: %s(P%d, %v) - its store write is held back", kind, p, a))
 	g1 := make(chan struct{})
 	go func() { defer close(g1); do(1, a) }()
@@ -471,6 +492,10 @@ func forcedHistory(t *testing.T, run *obs.Run, c *obs.Case, i int) {
 		t.Fatal("G1 never reached its store write")
 	}
 	overtaken := 0
+	okind := kind
+	if payOvertakes {
+		okind = "pay (amount ignored)"
+	}
 	for j := 0; j < m; j++ {
 		b := amount(rng)
 		done := make(chan struct{})
@@ -478,11 +503,11 @@ func forcedHistory(t *testing.T, run *obs.Run, c *obs.Case, i int) {
 		select {
 		case <-done:
 			overtaken++
-			w.sched = append(w.sched, fmt.Sprintf("G%d: %s(P%d, %v) ran to completion while G1's write was held", 2+j, kind, p, b))
+			w.sched = append(w.sched, fmt.Sprintf("G%d: %s(P%d, %v) ran to completion while G1's write was held", 2+j, okind, p, b))
 		case <-time.After(150 * time.Millisecond):
 			// the code under test does not let a second update of this total finish
 			// while the first one has not persisted: the order cannot be forced
-			w.sched = append(w.sched, fmt.Sprintf("G%d: %s(P%d, %v) did not complete while G1's write was held (blocked by the service)", 2+j, kind, p, b))
+			w.sched = append(w.sched, fmt.Sprintf("G%d: %s(P%d, %v) did not complete while G1's write was held (blocked by the service)", 2+j, okind, p, b))
 			close(rule.Release)
 			select {
 			case <-done:
@@ -517,6 +542,10 @@ func forcedHistory(t *testing.T, run *obs.Run, c *obs.Case, i int) {
 	stale := w.staleOverwrites()
 	run.Stat("stale_overwrites_observed", int64(stale))
 	w.check(rng, focus, 2)
+	if payOvertakes {
+		run.Stat("forced_pay_overtakes", 1)
+		kind = "consume+pay"
+	}
 	c.End(fmt.Sprintf("forced/%s/overtakers=%d/achieved=%d/pre=%d/post=%d/stale=%d", kind, m, overtaken, pre, post, stale), true)
 }
 
